@@ -44,6 +44,7 @@ PARENTS = {
 # what a constructor / conversion used as deserializer raises on bad *input text* (stdlib facts)
 CTOR_RAISES: Dict[str, Set[str]] = {
     "decimal.Decimal": {"decimal.InvalidOperation", "TypeError", "ValueError"},
+    "Decimal": {"decimal.InvalidOperation", "TypeError", "ValueError"},  # `from decimal import Decimal` inside decimal_deserializer
     "uuid.UUID": {"ValueError", "TypeError", "AttributeError"},
     "complex": {"ValueError", "TypeError"},
     "timedelta": {"OverflowError", "TypeError"},
